@@ -3,25 +3,23 @@
 import json, os
 HERE = os.path.dirname(os.path.dirname(os.path.abspath(__file__)))
 ALL = ["C%02d" % i for i in range(1, 21)]
-CHECKS = {
- "C19": dict(
-   technique="Coq proof (Z/nat arithmetic, list induction) of the window model + vm_compute correspondence with sliding_windows.py",
-   text="12 theorems about Model/K14_Sliding.v, closed under the global context, for every length/width/stride/sample/padding/"
-        "kernel matrix: number of windows, every window in range, maximality, i-th window = kernel of the sampled entries, "
-        "padding, window_sample forms, SequentialDifference = x[i+t]-x[i] for every t>=1. The hand-written model is tied to the "
-        "code on every run by evaluating it inside Coq (vm_compute) on the same generated cases as the implementation "
-        "(compiled and NUMBA_DISABLE_JIT=1) and comparing all outputs; the documented windows are also computed directly and "
-        "compared with the implementation (failing-input search).",
-   note="Trusted: Coq kernel; the correspondence harness (differential, integer-valued inputs); numpy/numba semantics of "
-        "slicing and fancy indexing as modelled; window_sample='random' and callable kernels are outside the model.",
-   ref="§5 C19, §4 K14"),
-}
+CHECKS = {}
+for f in sorted(os.listdir(os.path.join(HERE, "manifest.d"))):
+    if f.endswith(".json"):
+        CHECKS[f[:-5]] = json.load(open(os.path.join(HERE, "manifest.d", f)))
+REASONS = {}
+if os.path.exists(os.path.join(HERE, "manifest.d", "not_applicable.txt")):
+    for line in open(os.path.join(HERE, "manifest.d", "not_applicable.txt")):
+        if line.strip():
+            k, v = line.split(None, 1)
+            REASONS[k] = v.strip()
+
 def main():
     checks, na = [], []
     for pid in ALL:
         c = CHECKS.get(pid)
         if not c:
-            na.append({"property_id": pid, "reason": "check not built yet in this round (planned: see DESIGN.md §5 %s); no claim is made" % pid})
+            na.append({"property_id": pid, "reason": REASONS.get(pid, "check not built yet in this round (planned: see DESIGN.md §5 %s); no claim is made" % pid)})
             continue
         checks.append({
             "property_id": pid,
